@@ -277,16 +277,6 @@ SLICES = [
         "drops": "everything before the king-presence tests",
     },
     {
-        "name": "verif_position_fen",
-        "file": "uci.rs",
-        "within": r"^fn command_position\(",
-        "header": "pub(crate) fn verif_position_fen<'a>(data: &'a mut Data, terms: &mut SplitAsciiWhitespace<'_>, add_moves_out: &mut bool) -> anyhow::Result<&'a mut Game>",
-        "pre": "let mut add_moves = false;\nlet game: &'a mut Game = {",
-        "regions": [{"start": r'^\s*"fen" => \{', "end": ("block",), "inner": True}],
-        "post": "};\n*add_moves_out = add_moves;\nOk(game)",
-        "drops": "the `startpos` arm, the dispatch on the first term, and the move loop (slice verif_position_step)",
-    },
-    {
         "name": "verif_position_step",
         "file": "uci.rs",
         "within": r"^fn command_position\(",
